@@ -337,7 +337,12 @@ def _run_given(prop, sub, stratum, tier, seed, stats, open_known, frame, ftag):
             s_ = dict(stratum, N=n_)
             return sub.strategy(s_, tier) if frame is None else sub.strategy(s_, tier, frame)
 
-        strat = _gens.st_any_n(stratum["D"], tier, stratum.get("n_min", 3), stratum.get("n_max")).flatmap(_for_n)
+        if stratum.get("n_choices"):  # explicit list of (e.g. very large) grid sizes
+            from hypothesis import strategies as _st
+
+            strat = _st.sampled_from(list(stratum["n_choices"])).flatmap(_for_n)
+        else:
+            strat = _gens.st_any_n(stratum["D"], tier, stratum.get("n_min", 3), stratum.get("n_max")).flatmap(_for_n)
     elif frame is None:
         strat = sub.strategy(stratum, tier)
     else:
